@@ -869,6 +869,10 @@ class Interp:
         if k == 'cast':
             x = self.operand(w, depth, rv['op'])
             kind = rv['kind']
+            if x[0] == 'bv' and self.rule is not None and hasattr(self.rule, 'eval_cast'):
+                r = self.rule.eval_cast(self, w, kind, x, rv.get('from'), rv['ty'])
+                if r is not None:
+                    return [(w, r)]
             if kind == 'IntToInt':
                 if is_symbolic(x):
                     fr, to = ty_int_range(rv.get('from')), ty_int_range(rv['ty'])
@@ -923,6 +927,12 @@ class Interp:
         a = self.operand(w, depth, rv['l'])
         b = self.operand(w, depth, rv['r'])
         lty = rv.get('lty')
+        if self.rule is not None and hasattr(self.rule, 'eval_bin') and (a[0] == 'bv' or b[0] == 'bv'):
+            r = self.rule.eval_bin(self, w, op, a, b, lty)
+            if r is not None:
+                if op.endswith('WithOverflow'):
+                    return [(w, ('tuple', (r, FALSE)))]
+                return [(w, r)]
         if a[0] == 'pred':
             a = BOOL
         if b[0] == 'pred':
